@@ -135,7 +135,14 @@ def hist_units(prop, tier, seed):
     configs = list(HIST_CONFIGS)
     if tier == "thorough":
         configs += sampled_configs(seed, 24)
-    cases = 120 if tier == "quick" else 1500
+    cases = 600 if tier == "quick" else 4000
+    # developer aids (not used by the registered commands)
+    if os.environ.get("VERIF_EXTRA_CFG"):
+        configs += [(c, ["s111d", "s000"]) for c in os.environ["VERIF_EXTRA_CFG"].split(";")]
+    if os.environ.get("VERIF_ONLY_CFG"):
+        configs = [(c, k) for c, k in configs if c in os.environ["VERIF_ONLY_CFG"].split(";")]
+    if os.environ.get("VERIF_CASES"):
+        cases = int(os.environ["VERIF_CASES"])
     flavours = ["plain", "asan"] if tier == "quick" else ["plain", "asan", "casan"]
     for cfg, kinds in configs:
         ks = list(kinds)
@@ -152,7 +159,7 @@ def hist_units(prop, tier, seed):
                 if prop == "C18":
                     a["junk-diff"] = 1
                 n = cases if fl != "casan" else cases // 3
-                units.append(Unit("hist", cfg, k, fl, a, n))
+                units.append(Unit("hist", cfg, k, fl, a, n, batch=25 if tier == "quick" else 100))
     # dedicated probe units for the open findings of this property: no avoidance, so the listed defect is still driven
     for f in known:
         if f.get("status") == "open" and f["property"] == prop and f.get("probe", {}).get("engine") == "hist":
